@@ -68,8 +68,18 @@ def gen(rng, k):
     transfer = 0 if n == 1 else (npk + 1) * 50000
     cycle = rng.choice([max(transfer + 60000, 100000), max(transfer + 60000, 250000), 1000000 + transfer])
     stop = 1000 + cycle * rng.choice([2, 3]) + rng.choice([1000, cycle // 2])
-    sc = dict(kind='dm1', dll='j1939-21', lamps=lamps, dtcs=dtcs, cycle=cycle, stop=stop, horizon=stop + 3 * cycle + transfer + 500000,
-              lat=[rng.choice([0, 1, 5000])], nrecv=rng.choice([1, 2]))
+    dll = 'j1939-21'
+    if k % 4 == 2:
+        # the same service on the FD layer: up to 14 codes travel in one multi-PG frame, more as an FD broadcast — for more cycles
+        # than there are broadcast session numbers
+        dll = 'j1939-22'
+        n = rng.choice([1, 3, 14, 15, 16, 40])
+        dtcs = [[rng.getrandbits(19), rng.getrandbits(5), rng.getrandbits(7)] for _ in range(n)]
+        cycle = rng.choice([150000, 400000])
+        stop = 1000 + cycle * rng.choice([2, 6, 7]) + rng.choice([1000, cycle // 2])
+        transfer = 200000
+    sc = dict(kind='dm1', dll=dll, lamps=lamps, dtcs=dtcs, cycle=cycle, stop=stop, horizon=stop + 3 * cycle + transfer + 500000,
+              lat=[rng.choice([0, 1, 5000])], nrecv=rng.choice([1, 2]), bound_methods=rng.random() < 0.5)
     # receivers: operational CAs, or CAs that never claimed an address (a DM1 is a broadcast: passive listeners get it too)
     sc['recv_kinds'] = [rng.choice(['normal', 'normal', 'unclaimed']) for _ in range(sc['nrecv'])]
     # the first subscriber of the first receiver's Dm1 object sorts / empties what it is handed; the next subscriber of the same
@@ -149,6 +159,8 @@ def runner(sc):
         events = []          # ('call', t, supplied dtcs) | ('stop', t) in the order they happened
         res.events = events
 
+        src2 = None
+
         def src():
             calls.append(sim.now)
             k = len(calls) - 1
@@ -159,8 +171,17 @@ def runner(sc):
             order = [KEYS[(i + k) % 4] for i in range(4)]            # the lamp dictionary is built in a different key order each cycle
             return ({kk: sc['lamps'][KEYS.index(kk)] for kk in order}, [dict(spn=s, fmi=f, oc=o) for s, f, o in dt])
 
+        class App:
+            # the application hands over bound methods (a fresh method object at every attribute access), as applications do
+            def dm1_data(self_):
+                return src()
+
+            def dm1_data2(self_):
+                return src2()
+        app = App()
+
         def stop():
-            dmA.stop_send(src)
+            dmA.stop_send(app.dm1_data if sc.get('bound_methods') else src)
             events.append(('stop', sim.now))
         if sc.get('stop_mode') == 'timer':
             fired = {'n': 0}
@@ -172,13 +193,13 @@ def runner(sc):
                     return False
                 return True
             sim.at(1000, lambda: A.ecu.add_timer(sc['cycle'] / 1e6, stopper))
-        sim.at(1000, lambda: dmA.start_send(src, sc['cycle'] / 1e6))
+        sim.at(1000, lambda: dmA.start_send(app.dm1_data if sc.get('bound_methods') else src, sc['cycle'] / 1e6))
         if sc.get('second_start'):
             def src2():
                 events.append(('call2', sim.now, [list(d) for d in sc['dtcs2']]))
                 return (dict(zip(KEYS, sc['lamps'])), [dict(spn=s, fmi=f, oc=o) for s, f, o in sc['dtcs2']])
-            sim.at(1000 + sc['second_start'], lambda: dmA.start_send(src2, sc['cycle2'] / 1e6))
-            sim.at(sc['stop'] + 400000, lambda: dmA.stop_send(src2))
+            sim.at(1000 + sc['second_start'], lambda: dmA.start_send(app.dm1_data2 if sc.get('bound_methods') else src2, sc['cycle2'] / 1e6))
+            sim.at(sc['stop'] + 400000, lambda: dmA.stop_send(app.dm1_data2 if sc.get('bound_methods') else src2))
         if sc.get('stop_mode') not in ('timer', 'self'):
             sim.at(sc['stop'], stop)
         sim.run_until(sc['horizon'])
